@@ -1,11 +1,13 @@
 """C01, expression-lowering slice (coq/theories/C01expr): hir_lowering.rs `ExpressionLoweringManager::lower` and the
 functions it dispatches to (lower_binary incl. the && / || / :: arms, lower_if_else, lower_block, lower_unary,
 lower_fn_call, lower_method_access, lower_field_access, lower_tuple, lower_lambda + create_synthetic_lambda_function,
-literals, variables; `let` with a variable, wildcard or flat tuple pattern).
+lower_match, `if let`, literals, variables; `let` with any pattern; the pattern statements are the model of
+theories/C01pat, embedded).
 
 Layer A: theories/C01expr/Props.v: for every expression of the fragment, every environment and every world, running the
   statements `Lower.lower` emits in HirSem gives the value and the history of oracle calls SrcSem prescribes (or both
-  end the same way); the synthetic function of a lambda computes what the lambda's body computes; short-circuit
+  end the same way), for match / `if let` / `let p` through C01pat_lower_guard_correct carried over to HirSem by a
+  simulation (C01expr_guard_sound); the synthetic function of a lambda computes what the lambda's body computes; short-circuit
   operands run exactly when the left operand does not decide; the statements of every live sub-expression are present
   in evaluation order; the seeded shortcut C01-7, the spec's argument-first call order and a rebinding `let` are
   refuted by vm_compute.
@@ -14,7 +16,8 @@ Layer B: `vh hirexpr-dump` compiles generated programs (gen/progs.py gen_order_p
   member, the checked source expression of the body next to the HIR function produced for it, and the synthetic
   functions of the lambdas.  Bodies inside the fragment are translated to Gallina terms; inside coqc (vm_compute,
   sharded) `Lower.lower_body` of the source term must EQUAL the real statements and result expression, and
-  `Lower.lambda_fn` the real synthetic function of every lambda (paired through the ClosureInit statements).
+  `Lower.lambda_fn` the real synthetic function of every lambda (paired through the ClosureInit statements; a body with a
+  lambda whose ClosureInit is dropped - a dead operand of && / || - asks the model which lambdas survive: Corr.surviving).
   Temporaries: `Heap::alloc_temp_str` names them after the size of the string table, so the names of one body are
   increasing but not consecutive, and a temporary that is drawn and never used leaves no trace; the supply handed to
   the model maps the temporaries that OCCUR in its output, in increasing order, to those that occur in the real
@@ -37,9 +40,10 @@ from gen.rng import Rng
 from lib.vlib import Check, NCPU, check_props, coq_eval_many, coq_result, g_bytes, vh
 import lib.vlib as vlib
 
+THEORY = os.environ.get('C01EXPR_THEORY', 'C01expr')
 HEADER = ('From Coq Require Import ZArith NArith List Bool. Import ListNotations.\n'
-          'From SV Require Import Common.Int32 C01expr.Syntax C01expr.SrcSem C01expr.HirSem C01expr.Lower C01expr.Corr.\n'
-          'Open Scope Z_scope.\n')
+          + 'From SV Require Import Common.Int32 %s.Syntax %s.SrcSem %s.HirSem %s.Lower %s.Corr.\n' % ((THEORY,) * 5)
+          + 'Open Scope Z_scope.\n')
 
 BINOPS = {'*': 'MUL', '/': 'DIV', '%': 'MOD', '+': 'PLUS', '-': 'MINUS', '<': 'LT', '<=': 'LE', '>': 'GT', '>=': 'GE',
           '==': 'EQ', '!=': 'NE', '&': 'LAND', '|': 'LOR', '<<': 'SHL', '>>>': 'SHR', '^': 'XOR'}
@@ -78,6 +82,8 @@ class Names:
         m = re.fullmatch(r'M:\._GenFn\.(\d+)', f)
         if m:
             return '(FLam %d%%N)' % int(m.group(1))
+        if f == 'M:.Process.panic':
+            return 'FPanic'
         if f in self.constructors:
             return '(FInit %d%%N)' % self.fid(f)
         if f == self.concat and hir_args == 2:
@@ -102,27 +108,72 @@ def closure_numbers(ss, out):
     return out
 
 
+def count_lambdas_top(x):
+    """the lambdas of a body that are not inside another lambda, as the translation meets them"""
+    k = x[0]
+    if k == 'lambda':
+        return 1
+    if k in ('int', 'bool', 'str', 'var', 'class'):
+        return 0
+    if k == 'tuple':
+        return sum(count_lambdas_top(y) for y in x[2])
+    if k in ('field', 'method'):
+        return count_lambdas_top(x[1])
+    if k == 'un':
+        return count_lambdas_top(x[2])
+    if k == 'call':
+        return count_lambdas_top(x[1]) + sum(count_lambdas_top(y) for y in x[2])
+    if k == 'bin':
+        return count_lambdas_top(x[2]) + count_lambdas_top(x[3])
+    if k == 'if':
+        return count_lambdas_top(x[1][-1]) + count_lambdas_top(x[2]) + count_lambdas_top(x[3])
+    if k == 'match':
+        return count_lambdas_top(x[1]) + sum(count_lambdas_top(b) for _, _, b in x[2])
+    if k == 'block':
+        return sum(count_lambdas_top(st[-1]) for st in x[1]) + (count_lambdas_top(x[2]) if x[2] is not None else 0)
+    return 0
+
+
 class Lams:
     """The lambdas of one body get the numbers of the synthetic functions in the order of the ClosureInit statements of
     the real body (a wrong pairing shows as a disagreement of the statements); a nested lambda is numbered from the
     statements of the synthetic function it lives in.  `cases` collects one Corr.lcase per lambda."""
 
-    def __init__(self, real_stmts, synthetic, cases):
+    DUMMY = [0]
+
+    def __init__(self, real_stmts, synthetic, cases, assign=None):
         self.ks = closure_numbers(real_stmts, [])
         self.pos = 0
         self.synthetic = synthetic
         self.cases = cases
+        self.assign = assign      # None: pair with the real statements; 'prov': provisional numbers 900000+i;
+                                  # 'dummy': numbers nobody compares; a list: the number (or None = dropped) per lambda
 
     def next(self):
-        if self.pos >= len(self.ks):
-            raise Outside('lambda without a ClosureInit in the real statements (lowered in dropped code)')
-        k = self.ks[self.pos]
+        i = self.pos
         self.pos += 1
-        return k
+        if self.assign == 'prov':
+            return ('x', 900000 + i)
+        if self.assign == 'dummy':
+            Lams.DUMMY[0] += 1
+            return ('x', 800000 + Lams.DUMMY[0])
+        if isinstance(self.assign, list):
+            if i >= len(self.assign):
+                raise Outside(MISMATCH)
+            if self.assign[i] is None:
+                Lams.DUMMY[0] += 1
+                return ('x', 800000 + Lams.DUMMY[0])
+            return self.assign[i]
+        if i >= len(self.ks):
+            raise Outside(MISMATCH)
+        return self.ks[i]
 
     def done(self):
-        if self.pos != len(self.ks):
-            raise Outside('lambda count differs from the ClosureInit statements')
+        if self.assign is None and self.pos != len(self.ks):
+            raise Outside(MISMATCH)
+
+
+MISMATCH = 'lambda count differs from the ClosureInit statements (a lambda lowered in dropped code)'
 
 
 # ------------------------------------------------------------------ source expression -> Gallina (Syntax.expr)
@@ -231,23 +282,46 @@ def g_src(x, nm):
     if k == 'if':
         c = x[1]
         if c[0] != 'cond':
-            raise Outside('if let')
+            if not top_ok(c[1]):
+                raise Outside('if let with a variable pattern at the top')
+            ge = g_src(c[3], nm)
+            gp, gk = g_pat(c[1], nm), g_keys(c[2], nm)
+            g1 = g_src(x[2], nm)
+            g2 = g_src(x[3], nm)
+            return '(EIfLet %s %s %s %s %s)' % (gp, gk, ge, g1, g2)
         return '(EIf %s %s %s)' % (g_src(c[1], nm), g_src(x[2], nm), g_src(x[3], nm))
     if k == 'block':
         return '(EBlock %s)' % g_blk(x[1], x[2], nm)
     if k == 'match':
-        raise Outside('match')
+        ge = g_src(x[1], nm)
+        arms = []
+        for p, ks, body in x[2]:
+            if not top_ok(p):
+                raise Outside('match arm with a variable pattern at the top')
+            arms.append((g_pat(p, nm), g_keys(ks, nm), g_src(body, nm)))      # written order = order of the statements
+        out = 'ANil'
+        for gp, gk, gb in reversed(arms):
+            out = '(ACons %s %s %s %s)' % (gp, gk, gb, out)
+        return '(EMatch %s %s)' % (ge, out)
     if k == 'lambda':
         lams = nm.lams
         if lams is None:
             raise Outside('lambda')
         kf = lams.next()
-        fn = lams.synthetic.get('M:._GenFn.%d' % kf)
-        if fn is None:
-            raise Outside('lambda: synthetic function not in the dump')
         params, caps = x[1], x[2]
         gp = '[%s]' % '; '.join(nm.var(p) for p in params)
         gc = '[%s]' % '; '.join(nm.var(c) for c in caps)
+        if isinstance(kf, tuple):
+            # provisional / dropped: no synthetic function to compare with; the lambdas inside get numbers nobody compares
+            nm.lams = Lams([], lams.synthetic, lams.cases, assign='dummy')
+            try:
+                gb = g_src(x[3], nm)
+            finally:
+                nm.lams = lams
+            return '(ELambda %d%%N %s %s %s)' % (kf[1], gc, gp, gb)
+        fn = lams.synthetic.get('M:._GenFn.%d' % kf)
+        if fn is None:
+            raise Outside('lambda: synthetic function not in the dump')
         inner = Lams(fn['stmts'], lams.synthetic, lams.cases)
         nm.lams = inner
         try:
@@ -262,6 +336,39 @@ def g_src(x, nm):
             raise Outside('lambda body lowered to a statement outside the model: %s' % e)
         return '(ELambda %d%%N %s %s %s)' % (kf, gc, gp, gb)
     raise Outside('unknown node ' + k)
+
+
+def g_pat(p, nm):
+    k = p[0]
+    if k == 'wild':
+        return 'PWild'
+    if k == 'var':
+        return '(PVar %s)' % nm.var(p[1])
+    if k == 'tuple':
+        return '(PTuple [%s])' % '; '.join(g_pat(q, nm) for q in p[1])
+    if k == 'object':
+        return '(PObject [%s])' % '; '.join('(%d%%nat, %s)' % (i, g_pat(q, nm)) for i, q in p[1])
+    if k == 'variant':
+        return '(PVariant %d%%nat [%s])' % (p[1], '; '.join(g_pat(q, nm) for q in p[2]))
+    if k == 'or':
+        return '(POr [%s])' % '; '.join(g_pat(q, nm) for q in p[1])
+    raise Outside('unknown pattern ' + k)
+
+
+def structured(p):
+    if p[0] in ('tuple', 'object', 'variant'):
+        return True
+    if p[0] == 'or':
+        return bool(p[1]) and all(structured(q) for q in p[1])
+    return False
+
+
+def top_ok(p):
+    return p[0] == 'wild' or structured(p)
+
+
+def g_keys(ks, nm):
+    return '[%s]' % '; '.join(nm.var(k) for k in ks)
 
 
 def g_exprs(gs):
@@ -288,8 +395,11 @@ def g_blk(stmts, final, nm):
                 e = g_src(st[3], nm)
                 els = '; '.join('Some %s' % nm.var(q[1]) if q[0] == 'var' else 'None' for q in p[1])
                 parts.append('BLetT [%s] [%s] %s' % ('; '.join(nm.var(k) for k in st[2]), els, e))
+            elif top_ok(p):
+                e = g_src(st[3], nm)
+                parts.append('BLetP %s %s %s' % (g_pat(p, nm), g_keys(st[2], nm), e))
             else:
-                raise Outside('let with a structured pattern')
+                raise Outside('let with an or-pattern of variables')
     out = 'BEndU' if final is None else '(BEndE %s)' % g_src(final, nm)
     for p in reversed(parts):
         out = '(%s %s)' % (p, out)
@@ -342,10 +452,17 @@ def g_hstmt(s, nm):
         return '(HClosure %s %s %s)' % (nm.var(s[1]), nm.fun(s[2]), g_hexpr(s[3], nm))
     if k == 'struct':
         return '(HStruct %s [%s])' % (nm.var(s[1]), '; '.join(g_hexpr(a, nm) for a in s[2]))
+    if k == 'destr':
+        return '(HDestr %s %d%%nat [%s] %s %s %s)' % (g_hexpr(s[1], nm), s[2],
+                                                     '; '.join('None' if b is None else 'Some %s' % nm.var(b) for b in s[3]),
+                                                     g_hstmts(s[4], nm), g_hstmts(s[5], nm), g_fas(s[6], nm))
     raise NotInModel(k)
 
 
 # ------------------------------------------------------------------ kinds (sanity evaluation)
+ENUMS = {}
+
+
 def g_kind(k, structs, depth=3):
     if k == 'int':
         return 'KInt'
@@ -359,13 +476,16 @@ def g_kind(k, structs, depth=3):
         return 'KFn'
     if isinstance(k, list) and k[0] == 'class':
         fs = structs.get(k[1])
-        if fs is None or depth == 0:
-            return 'KRef'
-        return '(KStruct [%s])' % '; '.join(g_kind(f, structs, depth - 1) for f in fs)
+        if fs is not None and depth > 0:
+            return '(KStruct [%s])' % '; '.join(g_kind(f, structs, depth - 1) for f in fs)
+        vs = ENUMS.get(k[1])
+        if vs is not None and depth > 0:
+            return '(KEnum [%s])' % '; '.join('[%s]' % '; '.join(g_kind(f, structs, depth - 1) for f in v) for v in vs)
+        return 'KRef'
     return 'KRef'
 
 
-BUILTIN_RESULTS = {'M:.Process.println': 'unit', 'M:.Str.fromInt': 'str', 'M:.Str.toInt': 'int', 'M:.Process.panic': None}
+BUILTIN_RESULTS = {'M:.Process.println': 'unit', 'M:.Str.fromInt': 'str', 'M:.Str.toInt': 'int'}
 
 
 # ------------------------------------------------------------------ dump
@@ -443,6 +563,27 @@ FIXED = [
 '''),
     # lambdas: nothing captured, several captured, `this` captured (renamed inside the synthetic function), nested lambdas that capture
     # a parameter of the outer lambda and `this`, a lambda in a dead operand; tuple patterns with wildcards and repeated use
+    # patterns: out-of-order object pattern, nested tuple / object / variant / or patterns, else-if-let chains, matches inside match arms, a pattern site
+    # inside a lambda, effects in scrutinee and arms
+    ('fixed:patterns', '''class P(val a: int, val b: int) {}
+class E(A(int, P), B, C(E)) {}
+class Q(val e: E, val p: P) {}
+class Main {
+  function t(tag: int, v: int): int = { Process.println("t" :: Str.fromInt(tag)); v }
+  function f(v: E): int = match v { A(x, { b as y, a as z }) -> x + y - z, B | C(B) -> 1, C(A(k, _) | C(A(k, _))) -> k, _ -> 0 }
+  function g(v: Q): int = if let { p as { b, a as q }, e as B } = v { q + b } else { 0 }
+  function h(v: P): int = { let (a, b) = v; let w = { let { a as z, b as _ } = v; z }; w + b + Main.t(1, a) }
+  function k(v: E): int = if let A(_, (_, x)) = v { x } else if let C(C(A(y, _)) | A(y, _)) = v { y } else { 2 }
+  function m(v: Q): int = match v { { e as A(n, (p, q)), p as (r, s) } -> match v { _ -> n + p + q + r + s }, (C(w), _) -> match w { B -> 4, _ -> 5 }, _ -> 6 }
+  function n(v: E, u: int): (int) -> int = (d) -> match v { A(x, _) -> Main.t(2, x + d + u), _ -> if let C(B) = v { d } else { u } }
+  function o(v: Q): int = { let { e, p as (a, _) } = v; match (Main.t(3, a), e) { (z, A(x, _)) -> z + x, (z, _) -> Main.t(4, z) } }
+  function main(): unit = {
+    let p = P.init(1, 2);
+    let q = Q.init(E.A(3, p), p);
+    Process.println(Str.fromInt(Main.f(E.C(E.A(4, p))) + Main.g(q) + Main.h(p) + Main.k(E.B()) + Main.m(q) + Main.n(E.B(), 5)(6) + Main.o(q)));
+  }
+}
+'''),
     ('fixed:lambdas', '''class Acc(val v: int, val w: int) {
   method add(k: int): (int) -> int = (x) -> this.v + x + k
   method curried(): (int) -> (int) -> int = (a) -> (b) -> this.v * a + this.w * b
@@ -478,6 +619,49 @@ def expr(ck, tier, seed):
     outside = {}
     node_all, node_in = {}, {}
     rejected = 0
+    retry = []
+
+    def process(jid, r, f, nn, acc, c, structs, rk_of, assign):
+        """translate one body; None = in the fragment (texts appended), else the reason it is outside"""
+        nm = Names(r['constructors'], r['concat'])
+        lcases = []
+        try:
+            gparams = [nm.var(p) for p in f['params']]
+            nm.lams = Lams(f['stmts'], r.get('synthetic_functions', {}), lcases, assign=assign)
+            gsrc = g_src(f['src'], nm)
+            nm.lams.done()
+        except Outside as e:
+            return str(e)
+        c[1] += 1
+        c[3] += nn
+        for k, v in acc.items():
+            node_in[k] = node_in.get(k, 0) + v
+        try:
+            gs, gr = g_hstmts(f['stmts'], nm), g_hexpr(f['ret'], nm)
+        except NotInModel as e:
+            ck.disagree('C01expr: Lower.lower_body == real HIR', {'job': jid, 'function': f['name'], 'source': srcs[jid]},
+                        'a statement form of the model', 'real HIR contains %s' % e)
+            return None
+        tie_texts.append('([%s], %s, %s, %s)' % ('; '.join(gparams), gsrc, gs, gr))
+        tie_meta.append((jid, f['name'], nn, json.dumps(f['src'], sort_keys=True)))
+        for text, kf in lcases:
+            lam_texts.append(text)
+            lam_meta.append((jid, '%s / _GenFn.%d' % (f['name'], kf)))
+        # sanity evaluation: typed parameters and the world table
+        pk = ([['class', f['class']]] if f.get('method') else ['unit']) + f.get('pk', [])
+        if len(pk) == len(f['params']):
+            gp = '[%s]' % '; '.join('(%s, %s)' % (nm.var(p), g_kind(k, structs)) for p, k in zip(f['params'], pk))
+            tab = []
+            for fn_name, fidn in sorted(nm.funs.items(), key=lambda kv: kv[1]):
+                if fn_name in rk_of:
+                    tab.append('(%d%%N, Some %s)' % (fidn, g_kind(rk_of[fn_name], structs)))
+                elif fn_name in BUILTIN_RESULTS:
+                    b = BUILTIN_RESULTS[fn_name]
+                    tab.append('(%d%%N, %s)' % (fidn, 'None' if b is None else 'Some %s' % g_kind(b, structs)))
+            san_texts.append('(%s, %s, %s, %s, [%s])' % (gp, gsrc, gs, gr, '; '.join(tab)))
+            san_meta.append((jid, f['name']))
+        return None
+
     for j in jobs:
         jid = j['id']
         fam = jid.split(':')[0]
@@ -490,6 +674,8 @@ def expr(ck, tier, seed):
             continue
         c = cov.setdefault(fam, [0, 0, 0, 0])
         structs = r.get('structs', {})
+        ENUMS.clear()
+        ENUMS.update({k2: v2 for k2, v2 in r.get('enums', {}).items() if v2 is not None})
         rk_of = {f['name']: f.get('rk') for f in r['functions'] if 'rk' in f}
         for f in r['functions']:
             if f.get('missing'):
@@ -502,44 +688,41 @@ def expr(ck, tier, seed):
             c[2] += nn
             for k, v in acc.items():
                 node_all[k] = node_all.get(k, 0) + v
+            reason = process(jid, r, f, nn, acc, c, structs, rk_of, None)
+            if reason == MISMATCH:
+                retry.append((jid, r, f, nn, acc, c, structs, rk_of))
+            elif reason is not None:
+                outside[reason] = outside.get(reason, 0) + 1
+
+    # ---- bodies with a lambda whose ClosureInit is dropped: which lambdas survive in the model output?
+    if retry:
+        jobs2 = []
+        for i, (jid, r, f, nn, acc, c, structs, rk_of) in enumerate(retry):
             nm = Names(r['constructors'], r['concat'])
-            lcases = []
+            nm.lams = Lams(f['stmts'], r.get('synthetic_functions', {}), [], assign='prov')
             try:
                 gparams = [nm.var(p) for p in f['params']]
-                nm.lams = Lams(f['stmts'], r.get('synthetic_functions', {}), lcases)
                 gsrc = g_src(f['src'], nm)
-                nm.lams.done()
-            except Outside as e:
-                outside[str(e)] = outside.get(str(e), 0) + 1
-                continue
-            c[1] += 1
-            c[3] += nn
-            for k, v in acc.items():
-                node_in[k] = node_in.get(k, 0) + v
-            try:
-                gs, gr = g_hstmts(f['stmts'], nm), g_hexpr(f['ret'], nm)
-            except NotInModel as e:
-                ck.disagree('C01expr: Lower.lower_body == real HIR', {'job': jid, 'function': f['name'], 'source': srcs[jid]},
-                            'a statement form of the model', 'real HIR contains %s' % e)
-                continue
-            tie_texts.append('([%s], %s, %s, %s)' % ('; '.join(gparams), gsrc, gs, gr))
-            tie_meta.append((jid, f['name'], nn, json.dumps(f['src'], sort_keys=True)))
-            for text, kf in lcases:
-                lam_texts.append(text)
-                lam_meta.append((jid, '%s / _GenFn.%d' % (f['name'], kf)))
-            # sanity evaluation: typed parameters and the world table
-            pk = ([['class', f['class']]] if f.get('method') else ['unit']) + f.get('pk', [])
-            if len(pk) == len(f['params']):
-                gp = '[%s]' % '; '.join('(%s, %s)' % (nm.var(p), g_kind(k, structs)) for p, k in zip(f['params'], pk))
-                tab = []
-                for fn_name, fidn in sorted(nm.funs.items(), key=lambda kv: kv[1]):
-                    if fn_name in rk_of:
-                        tab.append('(%d%%N, Some %s)' % (fidn, g_kind(rk_of[fn_name], structs)))
-                    elif fn_name in BUILTIN_RESULTS:
-                        b = BUILTIN_RESULTS[fn_name]
-                        tab.append('(%d%%N, %s)' % (fidn, 'None' if b is None else 'Some %s' % g_kind(b, structs)))
-                san_texts.append('(%s, %s, %s, %s, [%s])' % (gp, gsrc, gs, gr, '; '.join(tab)))
-                san_meta.append((jid, f['name']))
+                jobs2.append(('c01expr_surv_%d' % i, HEADER + 'Eval vm_compute in (surviving ([%s], %s)).\n' % ('; '.join(gparams), gsrc)))
+            except Outside:
+                jobs2.append(('c01expr_surv_%d' % i, HEADER + 'Eval vm_compute in (@nil N).\n'))
+        outs = coq_eval_many(jobs2, timeout=300)
+        for (jid, r, f, nn, acc, c, structs, rk_of), (rc, o) in zip(retry, outs):
+            res1 = coq_result(o) if rc == 0 else None
+            ks = closure_numbers(f['stmts'], [])
+            surv = [int(z) - 900000 for z in re.findall(r'(\d+)%N', res1 or '')]
+            reason = MISMATCH
+            if res1 is not None and len(surv) == len(ks) and surv == sorted(surv):
+                total = count_lambdas_top(f['src'])
+                assign = [None] * total
+                for idx, kk in zip(surv, ks):
+                    if idx < total:
+                        assign[idx] = kk
+                reason = process(jid, r, f, nn, acc, c, structs, rk_of, assign)
+                if reason is None:
+                    ck.count('bodies with a lambda lowered in dropped code (numbered through the model)')
+            if reason is not None:
+                outside[reason] = outside.get(reason, 0) + 1
 
     # ---- the tie
     rows = eval_rows(ck, 'tie', tie_texts, 'fcase', 'tie_fns', 4)
